@@ -15,7 +15,7 @@ ENVS = [
     {"FRUGAL_MAX_INLINE_DEPTH": "1000", "FRUGAL_MAX_INLINE_IL_SIZE": "0o2000"},      # octal
     {"FRUGAL_MAX_INLINE_IL_SIZE": "1000000"},
 ]
-LEGACY = ["Pretouch", "PretouchOpts", "PretouchValue", "NoJIT", "SetMaxInlineDepth", "SetMaxInlineILSize", "GetStats"]
+LEGACY = ["Pretouch", "PretouchOpts", "PretouchValue", "PretouchStruct", "PretouchOdd", "NoJIT", "SetMaxInlineDepth", "SetMaxInlineILSize", "GetStats"]
 
 ASSUME17 = [
     "that no result depends on a legacy control is stated structurally (spec/Api.tla: no J* operator reads cfg); conformance: the same clauses judge every call under every environment and placement",
